@@ -25,6 +25,8 @@ structure Sender where
   /-- remaining messages of a direct sequence (sender 0 takes from the queue instead) -/
   todo : List Nat := []
   cur : Option Nat := none
+  /-- ghost: the messages this direct sequence was spawned with -/
+  orig : List Nat := []
   deriving Repr
 
 structure Zmq where
@@ -41,6 +43,7 @@ structure Zmq where
 inductive ZAct where
   | enqueue (m : Nat)               -- add_message_to_stream
   | spawn (msgs : List Nat)         -- send_message_sequence_soon
+  | ensure                          -- the bare `_ensure_socket()` of `setup` (no message)
   | step (i : Nat)                  -- sender i makes its next move
   deriving Repr
 
@@ -70,7 +73,7 @@ def Zmq.stepSender (z : Zmq) (i : Nat) : Option Zmq :=
           let z1 := { z with waiters := z.waiters.filter (· != i) }
           if z1.socket then some (setSender z1 i { s with pc := .ready })   -- lock taken and released at once
           else some (setSender { z1 with lockHeld := some i, factoryCalls := z1.factoryCalls + 1 } i { s with pc := .inFactory })
-        else none
+        else if i ∈ z.waiters then none else some { z with waiters := z.waiters ++ [i] }
     | .inFactory =>
       -- factory returns: socket stored, lock released
       some (setSender { z with socket := true, lockHeld := none } i { s with pc := .ready })
@@ -82,7 +85,8 @@ def Zmq.stepSender (z : Zmq) (i : Nat) : Option Zmq :=
 
 def Zmq.act (z : Zmq) : ZAct → Option Zmq
   | .enqueue m => some { z with queue := z.queue ++ [m], queued := z.queued ++ [m] }
-  | .spawn msgs => some { z with senders := z.senders ++ [{ todo := msgs }] }
+  | .spawn msgs => some { z with senders := z.senders ++ [{ todo := msgs, orig := msgs }] }
+  | .ensure => some { z with senders := z.senders ++ [{ pc := .wantLock }] }
   | .step i => z.stepSender i
 
 /-- initial state: the queue loop (sender 0) exists. -/
